@@ -337,6 +337,15 @@ func (f *Frame) callStatic(callee *ssa.Function, args []string, argVals []ssa.Va
 		}
 		return f.applyContract(c, callee, callee.Signature, names, args, reach, st, site)
 	}
+	if callee.Pkg != nil {
+		for _, sp := range e.unit.Strict {
+			if sp == callee.Pkg.Pkg.Path() && !e.externalModel(callee) {
+				e.callOrd[fnKey(callee)]++
+				e.oblige("pre", fmt.Sprintf("%s#pre[%s#%d.contract]", e.unit.Key(), fnKey(callee), e.callOrd[fnKey(callee)]), "contract", reach, "false", site).Output =
+					"call into package " + sp + " without a contract: its effect on the property cannot be bounded"
+			}
+		}
+	}
 	if out, ok := f.externalCall(callee, args, argVals, reach, st, in); ok {
 		return out
 	}
@@ -509,6 +518,10 @@ func (f *Frame) applyContract(c *Contract, callee *ssa.Function, sig *types.Sign
 	}
 	for _, en := range c.Ensures {
 		e.assume(reach, post.evalBool(en.Expr))
+	}
+	for _, en := range c.GhostEns {
+		e.assume(reach, post.evalBool(en.Expr))
+		e.note("ghost definition (assumed at call sites of %s): %s", shortKey(c.Key()), en.Raw)
 	}
 	for _, m := range errs {
 		e.P.contractError("%s (contract of %s applied at %s): %s", c.Pos, c.Key(), site, m)
